@@ -34,13 +34,19 @@ class AsyncioProxy:
 
 
 class PDriver:
-    def __init__(self, ext, flavour="sync", split=0, seed=0):
+    def __init__(self, ext, flavour="sync", split=0, seed=0, symlink=False):
         import mysensors
         import mysensors.task
         self.my = mysensors
         self.ext, self.flavour = ext, flavour
         self.rng = random.Random(seed)
         self.fs = fsshim.FS(split)
+        self.path = PATH[ext]
+        if symlink:
+            # the configured persistence file is a symbolic link into another directory
+            self.path = "/virt/link/" + PATH[ext].rsplit("/", 1)[1]
+            self.fs.links[self.path] = "/virt/real/" + PATH[ext].rsplit("/", 1)[1]
+        self.fs.main_path = self.path
         fsshim.install(self.fs)
         mysensors.task.threading.Timer = FakeTimer
         self.aproxy = None
@@ -63,7 +69,7 @@ class PDriver:
     def _new_gateway(self):
         FakeTimer.armed = []
         cls = self.my.BaseSyncGateway if self.flavour == "sync" else self.my.BaseAsyncGateway
-        self.gw = cls(RecTransport(), persistence=True, persistence_file=PATH[self.ext], protocol_version="2.2")
+        self.gw = cls(RecTransport(), persistence=True, persistence_file=self.path, protocol_version="2.2")
         self.pers = self.gw.tasks.persistence
         self.sched_on = False
         self.save_task_dead = False
